@@ -221,5 +221,7 @@ def run(tier, seed, only=None, nproc=None):
                      "exact real arithmetic (no floating-point rounding)",
                      "affinity: arbitrary symmetric real matrix (MMD), symmetric non-negative zero-diagonal (Wasserstein)",
                      "ot.emd2 is an uninterpreted function of its arguments (POT computing W1 is trusted)"],
-        bounds={"shapes(n,K)": QUICK_SHAPES if tier == "quick" else THOROUGH_SHAPES, "objectives": labels(tier)},
+        bounds={"shapes(n,K)": QUICK_SHAPES if tier == "quick" else THOROUGH_SHAPES, "objectives": labels(tier),
+                "long inputs": f"N in {LONG_N_QUICK if tier == 'quick' else LONG_N_THOROUGH} rows drawn by a fixed pattern from 3 (2 for K=3) distinct symbolic rows; all classes except Wasserstein; MMD N<=131",
+                "outside": "more distinct rows than stated; float rounding; POT's solver"},
         stubs=["ot.emd2 -> uninterpreted (cost,u,v) keyed by argument terms"])
